@@ -35,10 +35,13 @@ func inflightCases() []Case {
 			cs = append(cs, Case{Scenario: "inflight-play-" + proto, K: 0, Who: who, Mode: "gated"})
 		}
 	}
-	return cs
+	return append(cs, talkativeCases()...)
 }
 
 func runInflight(c Case) (f *fail) {
+	if strings.HasPrefix(c.Scenario, "talkative-server") {
+		return runTalkative(c)
+	}
 	defer func() {
 		if r := recover(); r != nil {
 			f = &fail{c.Scenario + "/harness-panic", fmt.Sprint(r)}
